@@ -63,6 +63,7 @@ type Oblig struct {
 	Model  string
 	Output string
 	enc    *Enc
+	group  []*Oblig
 }
 
 // Enc encodes one function.
@@ -121,6 +122,10 @@ type Enc struct {
 	rangeOf    map[*ssa.Range]ssa.Value
 	retPoints  []retPoint
 	nEntryAsm  int
+	groupTail  []*Oblig
+	atVars     map[string]SV
+	siteOrd    map[ssa.Instruction]int
+	curInstr   ssa.Instruction
 	callLog    map[string]SV
 	replayTerm map[string]SV
 }
@@ -199,20 +204,65 @@ func (e *Enc) define(prefix, sort string, t Term) Term {
 }
 
 func (e *Enc) oblige(kind, name string, goal Term, pos token.Pos, src string) *Oblig {
+	// conjunctive goals are split into one obligation per conjunct (smaller queries, sharper reports)
+	if strings.HasPrefix(goal, "(and ") {
+		if n := parseSx(goal); n != nil && n.head() == "and" && len(n.kids) > 2 {
+			var first *Oblig
+			for i, k := range n.kids[1:] {
+				o := e.oblige1(kind, fmt.Sprintf("%s/%d", name, i), k.String(), pos, src)
+				if first == nil {
+					first = o
+				}
+				e.groupTail = append(e.groupTail, o)
+			}
+			return &Oblig{group: e.takeGroup()}
+		}
+	}
+	// (=> a (and b c ...)) splits the same way
+	if strings.HasPrefix(goal, "(=> ") {
+		if n := parseSx(goal); n != nil && n.head() == "=>" && len(n.kids) == 3 && n.kids[2].head() == "and" && len(n.kids[2].kids) > 2 {
+			for i, k := range n.kids[2].kids[1:] {
+				o := e.oblige1(kind, fmt.Sprintf("%s/%d", name, i), tImp(n.kids[1].String(), k.String()), pos, src)
+				e.groupTail = append(e.groupTail, o)
+			}
+			return &Oblig{group: e.takeGroup()}
+		}
+	}
+	return e.oblige1(kind, name, goal, pos, src)
+}
+
+func (e *Enc) takeGroup() []*Oblig {
+	g := e.groupTail
+	e.groupTail = nil
+	return g
+}
+
+func (e *Enc) oblige1(kind, name string, goal Term, pos token.Pos, src string) *Oblig {
 	o := &Oblig{Name: name, Kind: kind, Fn: e.fn.String(), Goal: goal, Reach: e.curReach, NAssume: len(e.asm), Src: src, enc: e}
 	if pos.IsValid() {
 		o.Pos = e.W.fset.Position(pos)
 	}
-	if goal != tTrue {
-		e.obls = append(e.obls, o)
-	} else {
+	if goal == tTrue {
 		o.Status = "proved"
 		o.Solver = "trivial"
-		e.obls = append(e.obls, o)
 	}
+	e.obls = append(e.obls, o)
 	// after the check, execution continues only if the goal held
 	e.assume(goal)
 	return o
+}
+
+// setMeta sets label/position on an obligation or on every member of a split group.
+func (o *Oblig) setMeta(label string, pos token.Position) {
+	if o.group != nil {
+		for _, m := range o.group {
+			m.Label = label
+			m.Pos = pos
+		}
+		return
+	}
+	o.Label = label
+	o.Pos = pos
 }
 
 func (e *Enc) ordName(kind string) string {
@@ -848,3 +898,13 @@ func (e *Enc) topo() []*ssa.BasicBlock {
 // maxLenBound: no slice or string is longer than the address space allows (2^56 elements); assumed of every
 // slice/string value that enters a function. Listed in the trusted base.
 const maxLenBound = "72057594037927936"
+
+func (o *Oblig) setLabel(label string) {
+	if o.group != nil {
+		for _, m := range o.group {
+			m.Label = label
+		}
+		return
+	}
+	o.Label = label
+}
